@@ -128,7 +128,8 @@ PROPS = {
                       "streaming_dynamic_chunks_have_one_schema - over EVERY history of Adds (any schemas in any order) no chunk the schema-aware streaming collector writes mixes "
                       "two schemas: the written chunks are the value rows of lists of documents that each have one schema key, the pending samples belong to documents that all "
                       "have the collector's current key (ghost invariant G over all histories); dynamic_batches_have_one_schema - the same for the (non-streaming) dynamic collector: batch i "
-                      "holds exactly the value rows of a list of documents that all have one hash input (ghost invariant GD).",
+                      "holds exactly the value rows of a list of documents that all have one hash input, and the batches concatenated are exactly the accepted documents, once each "
+                      "and in order (ghost invariant GD).",
         "level_note": "FNV-64 collisions are outside the model (hash input is compared). That a schema change always STARTS a new chunk (rather than being refused) for whole "
                       "histories of the streaming-dynamic and writer collectors, and write faults, are decided by the correspondence run (F9/F16 were found that way); Resolve/Reset "
                       "interleaved with Adds are covered by the correspondence run.",
